@@ -1,5 +1,5 @@
 #!/bin/bash
-# tools/confirm_seed.sh <seed dir> <id> <demo file> <dest dir> <go test args...>
+# tools/confirm_seed.sh <seed dir> <id> <demo file[,demo file...]> <dest dir> <go test args...>
 # Confirms a seeded change in a scratch worktree of /repo's HEAD: the demonstration passes on the unchanged
 # tree, the patch applies and builds, the demonstration fails with it, and the full suite passes with it.
 export GOFLAGS=-mod=mod GOPROXY=off GOSUMDB=off GOTOOLCHAIN=local
@@ -10,12 +10,12 @@ git -C /repo worktree add -q --detach $WT HEAD || exit 2
 cd $WT
 res() { echo "SEED $ID: $1"; cd /; git -C /repo worktree remove --force $WT >/dev/null 2>&1; rm -rf $WT; exit $2; }
 git apply --check $D/patch.diff 2>/dev/null || res "patch does not apply to HEAD" 1
-mkdir -p $DEST && cp $D/$DEMO $DEST/
+mkdir -p $DEST && for f in ${DEMO//,/ }; do cp $D/$f $DEST/; done
 go test -vet=off -count=1 -timeout 10m "$@" >/tmp/cw-$ID.pristine.log 2>&1 || res "demo FAILS on the unchanged tree (see /tmp/cw-$ID.pristine.log)" 1
 git apply $D/patch.diff
 go build ./... >/tmp/cw-$ID.build.log 2>&1 || res "does not build" 1
 go test -vet=off -count=1 -timeout 10m "$@" >/tmp/cw-$ID.seeded.log 2>&1 && res "demo PASSES with the change (not a demonstration)" 1
-rm -f $DEST/$DEMO; rmdir $DEST 2>/dev/null
+for f in ${DEMO//,/ }; do rm -f $DEST/$f; done; rmdir $DEST 2>/dev/null
 go test -vet=off -count=1 -timeout 25m ./... >/tmp/cw-$ID.suite.log 2>&1 || res "suite FAILS with the change: $(grep -E '^(FAIL|---)' /tmp/cw-$ID.suite.log | head -3 | tr '\n' ' ')" 1
 rm -f /tmp/cw-$ID.*.log
 res "confirmed (demo passes unchanged, fails with the change; builds; suite passes)" 0
